@@ -70,6 +70,7 @@ KINDS = {
     "fk2w": "ALTER TABLE {T} ADD CONSTRAINT fk3 FOREIGN KEY (c) REFERENCES s9.o (y) ON DELETE SET NULL;",
 }
 MODES = ["sql", "bigquery"]
+OTHER_MODES = ["redshift", "spark_sql", "mysql", "mssql", "databricks", "sqlite", "vertics", "ibm_db2", "postgres", "oracle", "hql", "snowflake", "athena"]
 D3Q_KINDS = ["add", "ifex", "dropd", "rend", "drop", "rename", "fk1", "modcol", "fkbb", "fkd", "modtxt", "defb"]
 D3Q_TABS = ["s1.t", "t"]
 D3_KINDS = ["add", "drop", "rename", "modcol", "uq1", "def", "fk", "idx"]
@@ -142,6 +143,11 @@ def gen_cases(tier):
         if a[1] in ("s1.t", "t") and b[1] in ("s1.t", "t"):
             # (bigquery reports the schema as "dataset": the pairs over the two same-named tables are repeated in that mode)
             cases.append({"tabs": full, "ops": [a + ["asis", "asis", "asis"], b + ["asis", "asis", "asis"]], "mode": "bigquery"})
+    # every ordered pair of statement kinds on the unqualified table in every other output mode (each dialect class has its own
+    # post-processing hooks: the effect of a second statement must not depend on the mode)
+    for m in OTHER_MODES:
+        for ka, kb in itertools.product(KINDS, repeat=2):
+            cases.append({"tabs": ["t", "u"], "ops": [[ka, "t", "asis", "asis", "asis"], [kb, "t", "asis", "asis", "asis"]], "mode": m})
     # depth 3: every triple over the statements that edit the column list (incl. ones aimed at a column added earlier)
     s3q = [[k, t] for k in D3Q_KINDS for t in D3Q_TABS]
     for tri in itertools.product(s3q, repeat=3):
